@@ -48,7 +48,7 @@ def norm_p(op, p, ver, intern=None):
                 "hasobj": bool(p.get("obj")),
                 "obj": norm_obj(p["obj"], intern) if p.get("obj") else norm_obj({"type": "OpaqueData"})}
     if op == "DeriveKey":
-        return {"otype": p["otype"], "uids": list(p.get("uids", [])),
+        return {"otype": p["otype"], "uids": [_nu(u) for u in p.get("uids", [])],
                 "attrs": [norm_attr(a) for a in p.get("attrs", [])], "method": p.get("method", "HMAC")}
     if op == "Locate":
         return {"filters": [norm_attr(a) for a in p.get("filters", [])],
@@ -111,15 +111,19 @@ def norm_req(req, now, intern=None):
                       for it in req["items"]]}
 
 
+def _nu(x):
+    return x if isinstance(x, int) and not isinstance(x, bool) else A.to_uid(x)
+
+
 def result_uids(op, pl):
     if not pl:
         return []
     if op == "CreateKeyPair":
-        return [pl.get("priv", 0), pl.get("pub", 0)]
+        return [_nu(pl.get("priv", 0)), _nu(pl.get("pub", 0))]
     if op == "Locate":
-        return list(pl.get("uids", []))
+        return [_nu(u) for u in pl.get("uids", [])]
     if "uid" in pl:
-        return [pl["uid"]]
+        return [_nu(pl["uid"])]
     return []
 
 
@@ -137,7 +141,7 @@ class NotFoundTemplate(object):
         if not (msg.startswith(self.prefix) and msg.endswith(self.suffix)):
             return False
         mid = msg[len(self.prefix):len(msg) - len(self.suffix) if self.suffix else len(msg)]
-        return " " not in mid and len(mid) > 0
+        return " " not in mid.strip() and len(mid) > 0       # the echoed identifier (which may itself be ' 1' or '1 ')
 
 
 def norm_res(res, nf):
